@@ -1,6 +1,6 @@
 (* Property C03: operator algebra builds the operator of the corresponding matrix expression. *)
 From Coq Require Import List Arith Bool ZArith.
-From Core Require Import Base Kron Op OpProofs Algebra AlgebraProofs AlgebraKron AlgebraMore ZIInst.
+From Core Require Import Base Kron Op OpProofs Algebra AlgebraProofs AlgebraKron AlgebraMore AlgebraExpr ZIInst.
 Import ListNotations.
 
 Theorem C03_add_sound : forall (R : Type) (RR : Ring R) (CR : CRing R) (a b c : op (R:=R)),
@@ -69,3 +69,20 @@ Theorem C03_rtruediv_refuted :
   zimul (den q 0 0) (den a 0 0) <> (1,0)%Z.
 Proof. exact rtruediv_refuted. Qed.
 Print Assumptions C03_rtruediv_refuted.
+
+(* whole expressions, any nesting: evaluating an algebraic expression over {+, -, neg, scalar multiple, @, kron, kronsum,
+   block_diag} with cola's combinators (eval) yields a well-formed operator representing the dense evaluation (deval) of
+   the same expression, and a shape error exactly when the dense evaluation is undefined (mismatched + / - / @) *)
+Theorem C03_eval_sound : forall (R : Type) (RR : Ring R) (CR : CRing R) (x : aexp (R:=R)),
+  inscope x = true ->
+  match deval x with
+  | DOk s M => exists c, eval x = Ok c /\ wf c = true /\ shape c = s /\ feq (fst s) (snd s) (den c) M
+  | DErr => exists k, eval x = Err k
+  end.
+Proof. intros R RR CR x. exact (@eval_sound R RR CR x). Qed.
+Print Assumptions C03_eval_sound.
+Example C03_example :
+  let A : Op.op (R:=zi) := Dense (of_list_mn 2 2 [[(1,0)%Z; (2,1)%Z]; [(0,-1)%Z; (3,0)%Z]]) in
+  let x := AAdd (ADot (ALeaf A) (AKron (ALeaf (Diag 1 (fun _ => (2,0)%Z))) (ALeaf A))) (AMul (ANeg (ALeaf (Ident 2))) (0,1)%Z) in
+  inscope x = true /\ exists s M, deval x = DOk s M.
+Proof. cbv zeta. split; [reflexivity|]. eexists; eexists; reflexivity. Qed.
